@@ -9,7 +9,11 @@ rowLastCell_/cellPred_/cellNext_/cellRow_/cellX_/cellY_/cellOrientation_ compare
 pass of DetailedPlacer driven directly with arbitrary window arguments, the placement it holds checked
 with the proved checker legalb; (c) Circuit::placeDetailed with a recording callback: legalb at every
 Detailed callback and on return, cells it does not optimise stay where legalization put them, it never
-fails on a circuit legalization accepts."""
+fails on a circuit legalization accepts; (d) harness/dinit.cpp (tag FC): DetailedPlacement::fromIspdCircuit on
+generated circuits as they are, after Circuit::legalize, perturbed, and on degenerate ones (no rows, no cells,
+only fixed cells): the row structure it builds (segments in sorted order, rowCells() with x/width/polarity/
+orientation) or the exception it throws, compared EXACTLY with DetailedInit.v (from_circuit), the model of
+theorem c02_from_circuit_accepts_legal."""
 import json
 from tools import common
 from checks import detailed_common as dc
@@ -36,6 +40,22 @@ def run(ctx):
     dc_mism = [(l, i, m) for l, i, m in zip(dc_lines, dc_impl, dc_model)
                if i.replace(" CHECKFAIL", "").strip() != m.strip() or "ABS-NONE" in m]
     dc_ops = sum(m.count("/ OK") for m in dc_model)
+    # (d) the construction of the structure: fromIspdCircuit against DetailedInit.from_circuit
+    fc_harness = common.build_harness("dinit")
+    fc_lines = common.corpus("C02", ("FC ",)) + common.harness_gen(fc_harness, ["rand", s + 60, 1500 if ctx.quick else 40000])
+    fc_impl, fc_model, _ = common.run_both([fc_harness, "run"], [driver], fc_lines)
+    fc_mism = [(l, i, m) for l, i, m in zip(fc_lines, fc_impl, fc_model) if i.strip() != m.strip()]
+    fc_kinds = {}
+    fc_norows_fail = []
+    for l, i in zip(fc_lines, fc_impl):
+        k = " ".join(i.split()[:2]) if i.startswith("ERR") else i.split(" ")[0]
+        fc_kinds[k] = fc_kinds.get(k, 0) + 1
+        t = l.split()
+        if t[1] == "0" and not i.startswith("OK"):
+            cells = [t[3 + 8 * j:11 + 8 * j] for j in range(int(t[2]))]
+            if all(c[6] == "1" for c in cells):
+                fc_norows_fail.append((l, i[-300:], "fromIspdCircuit fails on a circuit without rows and without movable cells, "
+                                                   "which legalization accepts (finding F20)"))
     mism, ofail, nontriv = [], [], set()
     ops_ok = ops_no = 0
     for l, i, m in zip(lines, impl, model):
@@ -50,6 +70,7 @@ def run(ctx):
         ops_ok += k; ops_no += i.count("/ NO")
         if k:
             nontriv.add(l)
+    ofail += fc_norows_fail[:1]
     dres = do.run_dopt(ctx, 3000 if ctx.quick else 60000, seed=s + 40)
     cres = dc.run_detailed(ctx, 1200 if ctx.quick else 30000, seed=s + 20, prop="C02")
     for key in ("legal_fail", "shift_fail", "check_fail", "throw_fail", "crash"):
@@ -58,7 +79,7 @@ def run(ctx):
         ofail += [(x[0], x[1], "Circuit::placeDetailed: " + x[2]) for x in cres[key][:2]]
     for l, i, why in ofail[:3]:
         ctx.violation("/repo violates C02: " + why, {"case": l, "implementation_output": i, "why": why,
-                                                     "format": "DM: harness/dplace.cpp, DO: harness/dopt.cpp, DP: harness/detailed.cpp"})
+                                                     "format": "DM: harness/dplace.cpp, DO: harness/dopt.cpp, DP: harness/detailed.cpp, FC: harness/dinit.cpp"})
     if not ofail:
         if mism:
             ctx.violation("correspondence Moves.v <-> DetailedPlacement broken (%d of %d operation sequences differ); no illegal exposed state found"
@@ -70,16 +91,22 @@ def run(ctx):
                           % (len(dc_mism), len(dc_lines)),
                           {"broken": "correspondence of coq/MovesConcrete.v (theorem c02c_concrete_refines_abstract)",
                            "first_difference": {"case": dc_mism[0][0], "implementation": dc_mism[0][1], "model": dc_mism[0][2]}}, found_input=False)
+        if fc_mism:
+            ctx.violation("correspondence DetailedInit.v <-> DetailedPlacement::fromIspdCircuit broken (%d of %d circuits differ); no illegal exposed state found"
+                          % (len(fc_mism), len(fc_lines)),
+                          {"broken": "correspondence of coq/DetailedInit.v (theorem c02_from_circuit_accepts_legal)",
+                           "first_difference": {"case": fc_mism[0][0], "implementation": fc_mism[0][1], "model": fc_mism[0][2]}}, found_input=False)
         if not proof_ok:
             ctx.violation("proof obligations of Properties_C02.v do not check", {"broken": "Properties_C02.v", "detail": proof}, found_input=False)
     cov = dict(proof)
     cov.update({"trusted_base": common.TRUSTED_BASE + ["the five index arrays of DetailedPlacement: modelled (MovesConcrete.v), proved to refine the per-row lists, and compared array by array (tag DC); the lists are compared through rowCells()",
                                                         "lemon NetworkSimplex (shift pass) is not modelled: legality after shifts is validated per pass"],
-                "evaluations": len(lines) + dres["runs"] + cres["runs"],
+                "evaluations": len(lines) + dres["runs"] + cres["runs"] + len(fc_lines),
                 "distinct_nontrivial": len(nontriv) + dres["nontrivial"] + cres["moved_runs"],
                 "rule": "DM: 1-4 row segments (several per y), 1-7 cells with all polarities, 1-10 random ops (swap, insert, unplace, place at arbitrary x) + "
                         "EXHAUSTIVE: every sequence of 1 and 2 (thorough: 3) swap/insert operations over all cell/row/predecessor arguments from small initial "
-                        "placements; DO/DP as in C05. non-trivial = at least one operation was performed / the placement changed; distinct = distinct case lines",
+                        "placements; FC: circuits of the DP generator as generated / after Circuit::legalize / with one cell perturbed + degenerate circuits "
+                        "(no rows, no cells, only fixed cells, rows of different heights); DO/DP as in C05. non-trivial = at least one operation was performed / the placement changed; distinct = distinct case lines",
                 "exhaustive": True, "exhaustive_sequences": len(exh), "ops_performed": ops_ok, "ops_refused": ops_no,
                 "direct_drive": do.summary(dres), "placeDetailed_runs": dc.summary(cres),
                 "exposed_states_checked_legal": cres["states"] + dres["ops"],
@@ -87,7 +114,8 @@ def run(ctx):
                 "samples": [lines[0], exh[len(exh) // 2], cres["lines"][0][:500]],
                 "concrete_array_sequences": len(dc_lines), "concrete_array_ops_performed": dc_ops,
                 "concrete_array_differences": len(dc_mism),
-                "model_vs_impl_differences": len(mism) + len(dc_mism), "impl_outputs_violating_statement": len(ofail)})
+                "from_circuit_cases": len(fc_lines), "from_circuit_outcomes": fc_kinds, "from_circuit_differences": len(fc_mism),
+                "model_vs_impl_differences": len(mism) + len(dc_mism) + len(fc_mism), "impl_outputs_violating_statement": len(ofail)})
     return ctx.finish(LEVEL, cov, ["legality after the shift pass is validated, not proved",
                                    "model tied to the code by exact comparison on the cases of this run"])
 
@@ -95,9 +123,13 @@ def run(ctx):
 def replay(ctx, path):
     r = json.load(open(path))["replay"]
     case = r.get("case") or r["first_difference"]["case"]
-    name = {"DM": "dplace", "DC": "dplace", "DO": "dopt", "DP": "detailed"}[case[:2]]
+    name = {"DM": "dplace", "DC": "dplace", "DO": "dopt", "DP": "detailed", "FC": "dinit"}[case[:2]]
     harness = common.build_harness(name)
     driver = common.build_driver()
+    if name == "dinit":
+        impl, model, _ = common.run_both([harness, "run"], [driver], [case])
+        print("case :", case); print("impl :", impl[0]); print("model:", model[0])
+        return 1 if impl[0].strip() != model[0].strip() else 0
     if name == "dplace":
         impl, model, _ = common.run_both([harness, "run"], [driver], [case])
         print("case :", case); print("impl :", impl[0]); print("model:", model[0])
